@@ -61,3 +61,8 @@ WRAP size_t w_measure2s (const IA* a, int b) { size_t r = 0; W_TRY r = measure_a
 typedef FixedArray<IMATH_NAMESPACE::V3i> VA;
 WRAP void w_box_intersects_task (IMATH_NAMESPACE::Box3i* box, const VA* pts, IA* res, size_t s, size_t e)
 { W_TRY IntersectsTask<IMATH_NAMESPACE::V3i> t (*box, *pts, *res); t.execute (s, e); W_CATCH }
+
+// --- ExtendByTask (Box.extendBy(array)): one execute() call on worker slot tid of the per-worker box vector
+typedef std::vector<IMATH_NAMESPACE::Box3i> BV;
+WRAP void w_box_extend_task (BV* boxes, const VA* pts, size_t s, size_t e, int tid)
+{ W_TRY ExtendByTask<IMATH_NAMESPACE::V3i> t (*boxes, *pts); t.execute (s, e, tid); W_CATCH }
